@@ -164,3 +164,54 @@ func countSources(pool []*m.TNode) int {
 	}
 	return n
 }
+
+// memberPool: member types for the structural -> collection enumeration.
+func memberPool() []*m.TNode {
+	S, N, B, D := m.TString, m.TNumber, m.TBool, m.TDynamic
+	return []*m.TNode{S, N, B, D, m.ListOf(B), m.ListOf(S), m.ListOf(D), m.SetOf(N), m.SetOf(B), m.MapOf(B), m.MapOf(D),
+		m.TupleOf(N), m.TupleOf(D), m.TupleOf(D, D), m.TupleOf(S, B), m.TupleOf(S, S), m.TupleOf(), obj("a", N), obj("a", D), obj(), obj("a", m.ListOf(D))}
+}
+
+// runStructural enumerates every tuple / object type with 2 or 3 members drawn
+// from memberPool against collection targets with a placeholder element type:
+// the lookups (safe implies unsafe, no panic) for every pair, and for every
+// offered pair a known value next to the unknown value of the same type
+// (the type predicted for the unknown must admit what the known one converts to).
+func runStructural(c *core.Ctx, base int64) {
+	pool := memberPool()
+	D := m.TDynamic
+	var idx int64
+	for _, a := range pool {
+		for _, b := range pool {
+			for ci := -1; ci < len(pool); ci++ {
+				ms := []*m.TNode{a, b}
+				if ci >= 0 {
+					ms = append(ms, pool[ci])
+				}
+				S1 := m.TupleOf(ms...)
+				S2 := &m.TNode{K: m.KObject, Attrs: map[string]*m.TNode{}}
+				for i, e := range ms {
+					S2.Attrs[string(rune('a'+i))] = e
+				}
+				for _, pr := range [][2]*m.TNode{{S1, m.ListOf(D)}, {S1, m.SetOf(D)}, {S2, m.MapOf(D)}, {S1, m.ListOf(m.ListOf(D))}, {S1, m.ListOf(m.SetOf(D))}, {S2, m.MapOf(m.MapOf(D))}, {S2, m.MapOf(m.ListOf(D))}} {
+					idx++
+					if !c.Mine(idx) || !c.Want(base+idx) {
+						continue
+					}
+					S, T := pr[0], pr[1]
+					conc := exact(S, cty.DynamicVal, 1)
+					abs := cty.UnknownVal(buildType(S))
+					label := "structural-enum"
+					c.Begin(base+idx, func() string {
+						return fmt.Sprintf("Convert(%#v, %s) vs weakened Convert(%#v, same) [%s]", conc, T, abs, label)
+					})
+					c.Count("mode:structural-enum")
+					checkRelational(c, nil, conc, abs, T, label)
+				}
+			}
+		}
+	}
+	if c.Batch == 0 {
+		c.Exhaustive(fmt.Sprintf("every tuple / object type of 2 or 3 members from a %d-type pool x 7 collection targets with placeholder element types: lookups, one known value and the unknown value of the type", len(pool)))
+	}
+}
